@@ -296,6 +296,70 @@ func main() {
 		}
 		println("C14/carrier/16bit", d.String())
 	}
+	// conversions between strings and slices whose slice type, element type or string type is a defined type
+	{
+		type myRune rune
+		type myRune2 myRune
+		type nByte byte
+		type nByte2 nByte
+		type runes []rune
+		type myRunes []myRune
+		type bytesT []byte
+		type nBytes []nByte
+		type MyString string
+		rseqs := [][]rune{{}, {'a'}, {0x61, 0xe9, 0x266b, 0x1f600, -1, 0xd800}, {0x266b, 0x266c}, {0x10ffff, 0x110000, 0}, {0x47, 0x6f, 0x4e16, 0x754c}}
+		for i, sq := range rseqs {
+			a := make([]myRune, len(sq))
+			b2 := make([]myRune2, len(sq))
+			c := make(runes, len(sq))
+			dd := make(myRunes, len(sq))
+			e := make([]int32, len(sq))
+			for j, r := range sq {
+				a[j], b2[j], c[j], dd[j], e[j] = myRune(r), myRune2(r), r, myRune(r), int32(r)
+			}
+			println("C14/named/runes/i="+itoa(int64(i)), hexs(string(sq)), hexs(string(a)), hexs(string(b2)), hexs(string(c)), hexs(string(dd)), hexs(string(e)), hexs(string(MyString(a))), hexs(string(MyString(dd))), hexs(string(a[:len(a)/2])), hexs(string(dd[len(dd)/2:])))
+			s := string(sq)
+			d := newDigest()
+			ra, rb, rc, rd := []myRune(s), []myRune2(s), runes(s), myRunes(MyString(s))
+			d.w(uint32(len(ra)))
+			d.w(uint32(len(rb)))
+			d.w(uint32(len(rc)))
+			d.w(uint32(len(rd)))
+			for j := range ra {
+				d.w(uint32(ra[j]))
+				d.w(uint32(rb[j]))
+				d.w(uint32(rc[j]))
+				d.w(uint32(rd[j]))
+			}
+			m := map[string]int{string(sq): 1}
+			println("C14/named/runes-back/i="+itoa(int64(i)), d.String(), itoa(int64(len(ra))), itoa(int64(m[string(a)]+m[string(dd)]+m[string(b2)])), btoa(string(a) == s && MyString(dd) == MyString(s)))
+		}
+		bseqs := [][]byte{{}, {0x61}, {0xc3, 0xa9, 0xff, 0x80, 0}, {0xe2, 0x99, 0xab}, {0xf0, 0x9f, 0x98, 0x80, 0x41}}
+		for i, sq := range bseqs {
+			a := make([]nByte, len(sq))
+			b2 := make([]nByte2, len(sq))
+			c := make(bytesT, len(sq))
+			dd := make(nBytes, len(sq))
+			for j, x := range sq {
+				a[j], b2[j], c[j], dd[j] = nByte(x), nByte2(x), x, nByte(x)
+			}
+			println("C14/named/bytes/i="+itoa(int64(i)), hexs(string(sq)), hexs(string(a)), hexs(string(b2)), hexs(string(c)), hexs(string(dd)), hexs(string(MyString(a))), hexs(string(MyString(dd))), hexs(string(a[:len(a)/2])))
+			s := string(sq)
+			d := newDigest()
+			ra, rb, rc, rd := []nByte(s), []nByte2(s), bytesT(s), nBytes(MyString(s))
+			d.w(uint32(len(ra)))
+			d.w(uint32(len(rb)))
+			d.w(uint32(len(rc)))
+			d.w(uint32(len(rd)))
+			for j := range ra {
+				d.w(uint32(ra[j]))
+				d.w(uint32(rb[j]))
+				d.w(uint32(rc[j]))
+				d.w(uint32(rd[j]))
+			}
+			println("C14/named/bytes-back/i="+itoa(int64(i)), d.String(), itoa(int64(len(ra))), btoa(string(a) == s && MyString(dd) == MyString(s)))
+		}
+	}
 	// long byte and rune slices: conversions work on chunks internally; every window that starts / ends
 	// around the chunk size, at offsets into larger backing arrays
 	for _, n := range []int{9999, 10000, 10001, 20000, 25003} {
